@@ -93,3 +93,50 @@ theorem promote_spec (q : Qty) (wf wt : Nat) (s : Src) (hw : wf ≤ wt) (hs : s.
     exact ⟨convertSrc_hintOkAll _ _ s hs, canon_scale _ _ cs, fun x => mem_scale _ _ x⟩
 
 end Moc.Cli
+
+namespace Moc.Cli
+open Moc
+
+theorem shl_shl (a m k : Nat) : (a <<< m) <<< k = a <<< (m + k) := by
+  simp only [Nat.shiftLeft_eq, Nat.pow_add, Nat.mul_assoc]
+
+/-- Scaling a MOC valid for a `wf`-bit index type gives a MOC valid for the wider `wt`-bit type, when
+    the two deepest levels differ by exactly the width difference (true of the three quantities for
+    16 / 32 / 64 bits: `promotion_table`). -/
+theorem valid_scale (q : Qty) (wf wt d : Nat) (rs : List Rng) (hd : d ≤ q.maxDepth wf)
+    (hk : q.dim * q.maxDepth wt = q.dim * q.maxDepth wf + (wt - wf))
+    (hv : Valid q wf d rs) : Valid q wt d (scale (wt - wf) rs) := by
+  obtain ⟨hc, hb, ha⟩ := hv
+  have hmd : q.maxDepth wf ≤ q.maxDepth wt ∨ q.dim = 0 := by
+    by_cases h0 : q.dim = 0
+    · exact Or.inr h0
+    · left
+      have : q.dim * q.maxDepth wf ≤ q.dim * q.maxDepth wt := by omega
+      exact Nat.le_of_mul_le_mul_left this (Nat.pos_of_ne_zero h0)
+  refine ⟨canon_scale _ _ hc, ?_, ?_⟩
+  · intro r hr
+    obtain ⟨r0, hr0, rfl⟩ := List.mem_map.1 hr
+    have := hb r0 hr0
+    show r0.2 <<< (wt - wf) ≤ q.nCellsMax wt
+    unfold Qty.nCellsMax at *
+    rw [hk, ← shl_shl]
+    exact (shl_le _ _ _).2 this
+  · intro r hr
+    obtain ⟨r0, hr0, rfl⟩ := List.mem_map.1 hr
+    obtain ⟨a1, a2⟩ := ha r0 hr0
+    have hcs : q.cellSize wt d = q.cellSize wf d <<< (wt - wf) := by
+      unfold Qty.cellSize Qty.shiftFromMax
+      rw [shl_shl]
+      congr 1
+      rcases hmd with h | h
+      · have e1 : q.dim * (q.maxDepth wt - d) = q.dim * q.maxDepth wt - q.dim * d := Nat.mul_sub q.dim _ _
+        have e2 : q.dim * (q.maxDepth wf - d) = q.dim * q.maxDepth wf - q.dim * d := Nat.mul_sub q.dim _ _
+        have e3 : q.dim * d ≤ q.dim * q.maxDepth wf := Nat.mul_le_mul_left _ hd
+        omega
+      · rw [h] at hk ⊢; simp at hk ⊢; omega
+    show q.cellSize wt d ∣ r0.1 <<< (wt - wf) ∧ q.cellSize wt d ∣ r0.2 <<< (wt - wf)
+    rw [hcs]
+    simp only [Nat.shiftLeft_eq]
+    exact ⟨Nat.mul_dvd_mul_right a1 _, Nat.mul_dvd_mul_right a2 _⟩
+
+end Moc.Cli
